@@ -58,7 +58,7 @@ class Sched:
 
     def run(self, step, fn):
         with self.cv:
-            ok = self.cv.wait_for(lambda: self.pos < len(self.order) and self.order[self.pos] == step, timeout=20)
+            ok = self.cv.wait_for(lambda: self.pos < len(self.order) and self.order[self.pos] == step, timeout=120)
             if not ok:
                 raise RuntimeError("scheduler timeout at %r" % (step,))
         try:
